@@ -149,11 +149,19 @@ class Check(object):
         return 1 if nviol else 0
 
 
-def pmap(fn, items, procs=16, chunksize=1):
+def _limit_as(nbytes):
+    import resource
+    resource.setrlimit(resource.RLIMIT_AS, (nbytes, nbytes))
+
+
+def pmap(fn, items, procs=16, chunksize=1, mem_limit=None):
     """Parallel map with fork (the repo is imported in the children)."""
     import multiprocessing as mp
     if not items:
         return []
     ctx = mp.get_context('fork')
-    with ctx.Pool(min(procs, len(items))) as pool:
+    kw = {}
+    if mem_limit:
+        kw = dict(initializer=_limit_as, initargs=(mem_limit,))
+    with ctx.Pool(min(procs, len(items)), **kw) as pool:
         return pool.map(fn, items, chunksize)
